@@ -95,6 +95,9 @@ def build(case, given=None, extra=True, defaults_distinct=False):
             schema[name] = {'n': {x['v'][1]: leaf(x) for x in pvars}}
         elif kind == 'glob':
             schema[name] = {'*': {x['v'][1]: {'_default': 0, '_emit': True} for x in pvars}}
+        elif kind == 'glob2':
+            schema[name] = {'*': {'pool': {'*': {x['v'][3]: {'_default': 0, '_emit': True}
+                                                 for x in pvars}}}}
         if port['t'] == 'path':
             topo[name] = tuple(port['p'])
         elif port['t'] == 'gdict':
@@ -126,6 +129,14 @@ def build(case, given=None, extra=True, defaults_distinct=False):
     glob_nodes = {tuple(x['node'][:-2]) for x in variables
                   for port in case['ports']
                   if port['kind'] == 'glob' and x['port'] == port['name']}
+    # (for a glob inside a glob the members of the inner store also get an
+    #  explicitly declared sibling: they then exist before sub-schemas are applied)
+    glob_nodes |= {tuple(x['node'][:-4]) for x in variables
+                   for port in case['ports']
+                   if port['kind'] == 'glob2' and x['port'] == port['name']}
+    glob_nodes |= {tuple(x['node'][:-2]) for x in variables
+                   for port in case['ports']
+                   if port['kind'] == 'glob2' and x['port'] == port['name']}
     parents = [p for p in parents if p not in glob_nodes and p != loc + ('proc',)]
     b.extra_nodes = []
     if extra and parents:
@@ -140,7 +151,7 @@ def build(case, given=None, extra=True, defaults_distinct=False):
     for x in variables:
         n = tuple(x['node'])
         for port in case['ports']:
-            if port['kind'] == 'glob' and x['port'] == port['name'] and n not in b.given:
+            if port['kind'] in ('glob', 'glob2') and x['port'] == port['name'] and n not in b.given:
                 cur = initial
                 for k in n[:-1]:
                     cur = cur.setdefault(k, {})
